@@ -402,6 +402,36 @@ type panicStringer struct{}
 
 func (panicStringer) String() string { panic("stringer \"boom\"\n") }
 
+type (
+	panicU8       uint8
+	panicInt      int
+	panicBool     bool
+	panicF64      float64
+	panicStr      string
+	panicSlice    []int
+	panicMap      map[string]int
+	panicPtr      struct{ x int }
+	panicFunc     func()
+	panicErrU8    uint8
+	panicErrStr   string
+	panicErrSlice []int
+	panicErrPtr   struct{ x int }
+)
+
+func (panicU8) String() string      { panic("kind boom") }
+func (panicInt) String() string     { panic("kind boom") }
+func (panicBool) String() string    { panic("kind boom") }
+func (panicF64) String() string     { panic("kind boom") }
+func (panicStr) String() string     { panic("kind boom") }
+func (panicSlice) String() string   { panic("kind boom") }
+func (panicMap) String() string     { panic("kind boom") }
+func (*panicPtr) String() string    { panic("kind boom") }
+func (panicFunc) String() string    { panic("kind boom") }
+func (panicErrU8) Error() string    { panic("kind boom") }
+func (panicErrStr) Error() string   { panic("kind boom") }
+func (panicErrSlice) Error() string { panic("kind boom") }
+func (*panicErrPtr) Error() string  { panic("kind boom") }
+
 type valStringer struct{ x int }
 
 func (v valStringer) String() string { return "v" + strconv.Itoa(v.x) }
@@ -541,6 +571,40 @@ func Leaves(full bool) []*Spec {
 	})
 	ps.Fault = true
 	add(ps)
+	// panicking Stringers / errors of every other dynamic kind (enum-style named
+	// scalars, strings, slices, maps, funcs, pointers): containment must not depend on the kind
+	for _, kc := range []struct {
+		name string
+		v    fmt.Stringer
+	}{
+		{"uint8", panicU8(7)}, {"int", panicInt(-3)}, {"bool", panicBool(true)}, {"float64", panicF64(1.5)}, {"string", panicStr("s")},
+		{"slice", panicSlice{1}}, {"map", panicMap{"a": 1}}, {"pointer", &panicPtr{}}, {"func", panicFunc(func() {})},
+	} {
+		kc := kc
+		l := leaf("stringer:panics:kind-"+kc.name, func(k string) zapcore.Field { return zap.Stringer(k, kc.v) }, func(k string, r Ref) []jsonx.Member {
+			return one(k+"Error", jsonx.Containing("kind boom"))
+		})
+		l.Fault = true
+		add(l)
+		la := leaf("any:stringer-panics:kind-"+kc.name, func(k string) zapcore.Field { return zap.Any(k, kc.v) }, func(k string, r Ref) []jsonx.Member {
+			return one(k+"Error", jsonx.Containing("kind boom"))
+		})
+		la.Fault = true
+		add(la)
+	}
+	for _, kc := range []struct {
+		name string
+		v    error
+	}{
+		{"uint8", panicErrU8(7)}, {"string", panicErrStr("s")}, {"slice", panicErrSlice{1}}, {"pointer", &panicErrPtr{}},
+	} {
+		kc := kc
+		l := leaf("error:Error()-panics:kind-"+kc.name, func(k string) zapcore.Field { return zap.NamedError(k, kc.v) }, func(k string, r Ref) []jsonx.Member {
+			return one(k+"Error", jsonx.Containing("kind boom"))
+		})
+		l.Fault = true
+		add(l)
+	}
 	var nilVS *valStringer
 	ns := fixed("stringer:nil-pointer", func(k string) zapcore.Field { return zap.Stringer(k, nilVS) }, jsonx.S("<nil>"))
 	ns.Fault = true
